@@ -1,1250 +1,3 @@
-//! C07 - A shared downlink serves every consumer a complete, ordered session.
-//! Engine E1: the real `ValueDownlinkRuntime::run()` / `MapDownlinkRuntime::run()` future under
-//! the deviation-bounded schedule explorer. Harness actors: the "socket" (a reactive lane model
-//! that answers the @link/@sync/@command requests it reads, at a schedule-chosen pace, plus
-//! scripted external lane changes) and 1-3 consumers that attach at enumerated positions with
-//! different options, write command streams and read notifications.
-
-use bytes::BytesMut;
-use serde_json::json;
-use std::collections::{BTreeMap, BTreeSet};
-use std::num::NonZeroUsize;
-use std::pin::Pin;
-use std::sync::Arc;
-use std::task::{Context, Poll};
-use std::time::{Duration, Instant};
-use swimos_agent_protocol::encoding::downlink::{DownlinkOperationEncoder, MapNotificationDecoder, ValueNotificationDecoder};
-use swimos_agent_protocol::encoding::map::MapOperationEncoder;
-use swimos_agent_protocol::{DownlinkNotification, DownlinkOperation, MapMessage, MapOperation};
-use swimos_api::address::RelativeAddress;
-use swimos_messages::protocol::{Notification, Operation, RawRequestMessageDecoder, RawResponseMessageEncoder, ResponseMessage};
-use swimos_model::Text;
-use swimos_runtime::downlink::failure::AlwaysAbortStrategy;
-use swimos_runtime::downlink::{AttachAction, DownlinkOptions, DownlinkRuntimeConfig, IdentifiedAddress, MapDownlinkRuntime, ValueDownlinkRuntime};
-use swimos_utilities::byte_channel::{byte_channel, BudgetedFutureExt, ByteReader, ByteWriter};
-use swimos_utilities::trigger;
-use tokio::io::{AsyncRead, AsyncWrite, ReadBuf};
-use tokio::sync::mpsc;
-use tokio_util::codec::{Decoder, Encoder};
-use uuid::Uuid;
-use vcommon::sched::{run_one, ExploreStats, Outcome, Subject, WakeFlag, World};
-use vcommon::{Ctx, Leg};
-
-#[derive(Clone, Copy, Debug, PartialEq, Eq, serde::Serialize, serde::Deserialize)]
-enum Kind {
-    Value,
-    Map,
-}
-
-#[derive(Clone, Copy, Debug, PartialEq, Eq, serde::Serialize, serde::Deserialize)]
-enum Mode {
-    Eager,
-    Burst,
-    SlowRead,
-    /// The socket reads eagerly until it has seen the @link request and lazily afterwards: the
-    /// runtime gets past its initial `send_link` and is then polled after every consumer step
-    /// while its output is blocked, so commands pile up in the backpressure relief queue.
-    SlowAfterLink,
-}
-
-/// Lane operation: a command a consumer writes, or an external change of the remote lane.
-#[derive(Clone, Debug, PartialEq, Eq, serde::Serialize, serde::Deserialize)]
-enum LOp {
-    Set(Option<i32>),
-    Upd(i32, i32),
-    Rem(i32),
-    Clr,
-}
-
-#[derive(Clone, Debug, PartialEq, Eq, serde::Serialize, serde::Deserialize)]
-enum Step {
-    /// consumer: attach with (sync, keep_linked)
-    Attach(bool, bool),
-    /// consumer: write a command
-    Cmd(LOp),
-    /// consumer: drop both channel ends
-    Drop,
-    /// socket: the remote lane changes for an external reason
-    Lane(LOp),
-    /// socket: the remote lane closes the link
-    Unlinked,
-}
-
-#[derive(Clone, Debug, serde::Serialize, serde::Deserialize)]
-struct Cfg {
-    kind: Kind,
-    /// (actor, step): actor 0 = socket, 1.. = consumers
-    script: Vec<(usize, Step)>,
-    consumers: usize,
-    remote_buf: usize,
-    dl_buf: usize,
-    sock_credit: usize,
-    budget: usize,
-    mode: Mode,
-}
-
-type LaneState = BTreeMap<i32, i32>; // value lane: key 0 -> value; absent = Extant/None
-
-/// What the socket (lane model) will write next.
-#[derive(Clone, Debug, PartialEq, Eq)]
-enum Out {
-    Linked,
-    /// a lane change: applied to the lane state and announced when it is written
-    Change(LOp),
-    /// the answer to a @sync: expands into the current entries + synced when it reaches the head
-    SyncReply,
-    /// one entry of a sync reply (does not change the state)
-    SyncEvent(LOp),
-    Synced,
-    Unlinked,
-}
-
-#[derive(Clone, Debug, PartialEq, Eq)]
-enum Note {
-    Linked,
-    Synced,
-    Event(LOp),
-    Unlinked,
-}
-
-struct Consumer {
-    queue: Vec<Step>,
-    pos: usize,
-    tx: Option<ByteWriter>,
-    rx: Option<ByteReader>,
-    rx_flag: Arc<WakeFlag>,
-    inbuf: BytesMut,
-    vdec: ValueNotificationDecoder<Option<i32>>,
-    mdec: MapNotificationDecoder<i32, i32>,
-    notes: Vec<(u64, Note)>,
-    sent: Vec<(u64, LOp)>,
-    attach: Option<(u64, bool, bool)>,
-    dropped_at: Option<u64>,
-    closed_at: Option<u64>,
-    decode_error: Option<String>,
-    notes_at_quiescence: Option<usize>,
-}
-
-struct Sock {
-    queue: Vec<Step>,
-    pos: usize,
-    tx: Option<ByteWriter>, // socket -> runtime (responses)
-    rx: Option<ByteReader>, // runtime -> socket (requests)
-    rx_flag: Arc<WakeFlag>,
-    inbuf: BytesMut,
-    out_queue: std::collections::VecDeque<Out>,
-    linked: bool,
-    state: LaneState,
-    /// (step, state) after every change
-    history: Vec<(u64, LaneState)>,
-    /// every event frame written to the runtime, in order
-    events_sent: Vec<(u64, LOp)>,
-    requests: Vec<(u64, String, String)>, // (step, kind, body)
-    unlinked_sent: Option<u64>,
-    closed: bool,
-}
-
-struct DlWorld {
-    cfg: Cfg,
-    subject: Subject<()>,
-    att_tx: Option<mpsc::Sender<AttachAction>>,
-    stop_tx: Option<trigger::Sender>,
-    sock: Sock,
-    cons: Vec<Consumer>,
-    step: u64,
-    quiescent_seen: bool,
-    stop_fired: Option<u64>,
-    trace_on: bool,
-    trace: Vec<String>,
-}
-
-const EV_POLL: u32 = 0;
-const EV_SOCK_RECV: u32 = 1;
-const EV_SOCK_SEND: u32 = 2;
-const EV_STOP: u32 = 3;
-const EV_CONS_RECV: u32 = 100;
-const EV_SCRIPT: u32 = 200;
-
-fn read_now(r: &mut ByteReader, flag: &Arc<WakeFlag>, max: usize, out: &mut BytesMut) -> Result<Option<usize>, String> {
-    let waker = flag.waker();
-    let mut cx = Context::from_waker(&waker);
-    let mut tmp = vec![0u8; if max == 0 { 8192 } else { max }];
-    let mut total = 0usize;
-    loop {
-        let mut rb = ReadBuf::new(&mut tmp);
-        flag.clear();
-        match Pin::new(&mut *r).poll_read(&mut cx, &mut rb) {
-            Poll::Ready(Ok(())) => {
-                let n = rb.filled().len();
-                if n == 0 {
-                    if total == 0 {
-                        return Ok(Some(0));
-                    }
-                    flag.set();
-                    return Ok(Some(total));
-                }
-                out.extend_from_slice(rb.filled());
-                total += n;
-                if max != 0 {
-                    flag.set();
-                    return Ok(Some(total));
-                }
-            }
-            Poll::Ready(Err(e)) => return Err(e.to_string()),
-            Poll::Pending => {
-                if flag.is_set() {
-                    continue;
-                }
-                return Ok(if total == 0 { None } else { Some(total) });
-            }
-        }
-    }
-}
-
-/// Write as much as the channel accepts right now; returns the number of bytes written.
-fn write_some(w: &mut ByteWriter, data: &[u8]) -> Result<usize, String> {
-    let flag = WakeFlag::new(false);
-    let waker = flag.waker();
-    let mut cx = Context::from_waker(&waker);
-    let mut done = 0;
-    while done < data.len() {
-        match Pin::new(&mut *w).poll_write(&mut cx, &data[done..]) {
-            Poll::Ready(Ok(n)) => done += n,
-            Poll::Ready(Err(e)) => return Err(e.to_string()),
-            Poll::Pending => {
-                if flag.is_set() {
-                    flag.clear();
-                    continue;
-                }
-                break;
-            }
-        }
-    }
-    Ok(done)
-}
-
-fn lop_text(op: &LOp) -> String {
-    match op {
-        LOp::Set(Some(x)) => x.to_string(),
-        LOp::Set(None) => String::new(),
-        LOp::Upd(k, v) => format!("@update(key:{}) {}", k, v),
-        LOp::Rem(k) => format!("@remove(key:{})", k),
-        LOp::Clr => "@clear".to_string(),
-    }
-}
-
-fn parse_lop(kind: Kind, body: &str) -> Option<LOp> {
-    let b = body.trim();
-    match kind {
-        Kind::Value => {
-            if b.is_empty() {
-                Some(LOp::Set(None))
-            } else {
-                b.parse().ok().map(|x| LOp::Set(Some(x)))
-            }
-        }
-        Kind::Map => {
-            if b == "@clear" {
-                Some(LOp::Clr)
-            } else if let Some(rest) = b.strip_prefix("@update(key:") {
-                let (k, v) = rest.split_once(')')?;
-                Some(LOp::Upd(k.trim().parse().ok()?, v.trim().parse().ok()?))
-            } else if let Some(rest) = b.strip_prefix("@remove(key:") {
-                Some(LOp::Rem(rest.strip_suffix(')')?.trim().parse().ok()?))
-            } else {
-                None
-            }
-        }
-    }
-}
-
-fn apply(state: &mut LaneState, op: &LOp) {
-    match op {
-        LOp::Set(Some(x)) => {
-            state.insert(0, *x);
-        }
-        LOp::Set(None) => {
-            state.remove(&0);
-        }
-        LOp::Upd(k, v) => {
-            state.insert(*k, *v);
-        }
-        LOp::Rem(k) => {
-            state.remove(k);
-        }
-        LOp::Clr => state.clear(),
-    }
-}
-
-impl DlWorld {
-    fn log(&mut self, s: String) {
-        if self.trace_on {
-            self.trace.push(format!("[{}] {}", self.step, s));
-        }
-    }
-
-    fn sock_change(&mut self, op: &LOp) {
-        if self.sock.linked && self.sock.unlinked_sent.is_none() {
-            self.sock.out_queue.push_back(Out::Change(op.clone()));
-        } else {
-            // nobody is linked: the lane just changes
-            apply(&mut self.sock.state, op);
-            let st = self.sock.state.clone();
-            self.sock.history.push((self.step, st));
-        }
-    }
-
-    fn next_script_actors(&self) -> Vec<usize> {
-        let mut order: Vec<(usize, usize)> = vec![];
-        let actors = self.cfg.consumers + 1;
-        for a in 0..actors {
-            let (pos, len, alive) = if a == 0 { (self.sock.pos, self.sock.queue.len(), true) } else { (self.cons[a - 1].pos, self.cons[a - 1].queue.len(), self.cons[a - 1].dropped_at.is_none()) };
-            if pos < len && alive {
-                let mut count = 0;
-                let mut gidx = usize::MAX;
-                for (g, (x, _)) in self.cfg.script.iter().enumerate() {
-                    if *x == a {
-                        if count == pos {
-                            gidx = g;
-                            break;
-                        }
-                        count += 1;
-                    }
-                }
-                order.push((gidx, a));
-            }
-        }
-        order.sort();
-        order.into_iter().map(|(_, a)| a).collect()
-    }
-}
-
-impl World for DlWorld {
-    type Cfg = Cfg;
-
-    fn new(cfg: &Cfg, trace: bool) -> Self {
-        let (att_tx, att_rx) = mpsc::channel(16);
-        let (stop_tx, stop_rx) = trigger::trigger();
-        // runtime -> socket (requests) and socket -> runtime (responses)
-        let (req_tx, req_rx) = byte_channel(NonZeroUsize::new(cfg.remote_buf).unwrap());
-        let (resp_tx, resp_rx) = byte_channel(NonZeroUsize::new(1 << 16).unwrap());
-        let address = IdentifiedAddress { identity: Uuid::from_u128(77), address: RelativeAddress::new(Text::new("/remote"), Text::new("lane")) };
-        let config = DownlinkRuntimeConfig {
-            empty_timeout: Duration::from_secs(30),
-            attachment_queue_size: NonZeroUsize::new(16).unwrap(),
-            abort_on_bad_frames: true,
-            remote_buffer_size: NonZeroUsize::new(cfg.remote_buf).unwrap(),
-            downlink_buffer_size: NonZeroUsize::new(cfg.dl_buf).unwrap(),
-        };
-        let budget = NonZeroUsize::new(cfg.budget.max(2)).unwrap();
-        let subject: Subject<()> = match cfg.kind {
-            Kind::Value => Subject::new(tokio::task::unconstrained(ValueDownlinkRuntime::new(att_rx, (req_tx, resp_rx), stop_rx, address, config).run().with_budget(budget))),
-            Kind::Map => Subject::new(tokio::task::unconstrained(MapDownlinkRuntime::new(att_rx, (req_tx, resp_rx), stop_rx, address, config, AlwaysAbortStrategy).run().with_budget(budget))),
-        };
-        let sock = Sock {
-            queue: cfg.script.iter().filter(|(a, _)| *a == 0).map(|(_, s)| s.clone()).collect(),
-            pos: 0,
-            tx: Some(resp_tx),
-            rx: Some(req_rx),
-            rx_flag: WakeFlag::new(true),
-            inbuf: BytesMut::new(),
-            out_queue: Default::default(),
-            linked: false,
-            state: LaneState::new(),
-            history: vec![(0, LaneState::new())],
-            events_sent: vec![],
-            requests: vec![],
-            unlinked_sent: None,
-            closed: false,
-        };
-        let cons = (1..=cfg.consumers)
-            .map(|i| Consumer {
-                queue: cfg.script.iter().filter(|(a, _)| *a == i).map(|(_, s)| s.clone()).collect(),
-                pos: 0,
-                tx: None,
-                rx: None,
-                rx_flag: WakeFlag::new(true),
-                inbuf: BytesMut::new(),
-                vdec: Default::default(),
-                mdec: Default::default(),
-                notes: vec![],
-                sent: vec![],
-                attach: None,
-                dropped_at: None,
-                closed_at: None,
-                decode_error: None,
-                notes_at_quiescence: None,
-            })
-            .collect();
-        DlWorld { cfg: cfg.clone(), subject, att_tx: Some(att_tx), stop_tx: Some(stop_tx), sock, cons, step: 0, quiescent_seen: false, stop_fired: None, trace_on: trace, trace: vec![] }
-    }
-
-    fn enabled(&mut self) -> Vec<u32> {
-        let mut poll = vec![];
-        if self.subject.runnable() {
-            poll.push(EV_POLL);
-        }
-        let mut sock = vec![];
-        if self.sock.rx.is_some() && self.sock.rx_flag.is_set() {
-            sock.push(EV_SOCK_RECV);
-        }
-        if !self.sock.out_queue.is_empty() && self.sock.tx.is_some() {
-            sock.push(EV_SOCK_SEND);
-        }
-        let mut recv = vec![];
-        for (i, c) in self.cons.iter().enumerate() {
-            if c.rx.is_some() && c.rx_flag.is_set() {
-                recv.push(EV_CONS_RECV + i as u32);
-            }
-        }
-        let script: Vec<u32> = if self.stop_fired.is_some() { vec![] } else { self.next_script_actors().into_iter().map(|a| EV_SCRIPT + a as u32).collect() };
-        let mut out = vec![];
-        match self.cfg.mode {
-            Mode::Eager => {
-                out.extend(poll);
-                out.extend(sock);
-                out.extend(recv);
-                out.extend(script);
-            }
-            Mode::Burst => {
-                out.extend(script);
-                out.extend(poll);
-                out.extend(sock);
-                out.extend(recv);
-            }
-            Mode::SlowRead => {
-                out.extend(poll);
-                out.extend(script);
-                out.extend(sock);
-                out.extend(recv);
-            }
-            Mode::SlowAfterLink => {
-                out.extend(poll);
-                if !self.sock.linked {
-                    out.extend(sock);
-                    out.extend(script);
-                } else {
-                    out.extend(script);
-                    out.extend(sock);
-                }
-                out.extend(recv);
-            }
-        }
-        if out.is_empty() {
-            if !self.quiescent_seen {
-                self.quiescent_seen = true;
-                for c in self.cons.iter_mut() {
-                    c.notes_at_quiescence = Some(c.notes.len());
-                }
-            }
-            if self.subject.alive() && self.stop_fired.is_none() {
-                return vec![EV_STOP];
-            }
-            return vec![];
-        }
-        out
-    }
-
-    fn label(&self, code: u32) -> String {
-        match code {
-            EV_POLL => "poll".into(),
-            EV_SOCK_RECV => "sock-recv".into(),
-            EV_SOCK_SEND => format!("sock-send({:?})", self.sock.out_queue.front()),
-            EV_STOP => "stop".into(),
-            c if (EV_CONS_RECV..EV_SCRIPT).contains(&c) => format!("recv({})", c - EV_CONS_RECV + 1),
-            c => {
-                let a = (c - EV_SCRIPT) as usize;
-                let st = if a == 0 { self.sock.queue.get(self.sock.pos) } else { self.cons[a - 1].queue.get(self.cons[a - 1].pos) };
-                format!("script({}, {:?})", a, st)
-            }
-        }
-    }
-
-    async fn fire(&mut self, code: u32) {
-        self.step += 1;
-        let step = self.step;
-        match code {
-            EV_POLL => {
-                if self.subject.poll() {
-                    self.log("runtime completed".into());
-                }
-            }
-            EV_STOP => {
-                self.stop_fired = Some(step);
-                if let Some(s) = self.stop_tx.take() {
-                    s.trigger();
-                }
-                self.att_tx = None;
-            }
-            EV_SOCK_RECV => {
-                let credit = self.cfg.sock_credit;
-                let kind = self.cfg.kind;
-                let mut reqs = vec![];
-                if let Some(rx) = self.sock.rx.as_mut() {
-                    match read_now(rx, &self.sock.rx_flag, credit, &mut self.sock.inbuf) {
-                        Ok(Some(0)) | Err(_) => {
-                            self.sock.rx = None;
-                            self.sock.closed = true;
-                        }
-                        _ => {}
-                    }
-                    let mut dec = RawRequestMessageDecoder;
-                    loop {
-                        match dec.decode(&mut self.sock.inbuf) {
-                            Ok(Some(m)) => match m.envelope {
-                                Operation::Link => reqs.push(("link".to_string(), String::new())),
-                                Operation::Sync => reqs.push(("sync".to_string(), String::new())),
-                                Operation::Unlink => reqs.push(("unlink".to_string(), String::new())),
-                                Operation::Command(b) => reqs.push(("command".to_string(), String::from_utf8_lossy(&b).to_string())),
-                            },
-                            Ok(None) => break,
-                            Err(_) => {
-                                self.sock.closed = true;
-                                break;
-                            }
-                        }
-                    }
-                }
-                for (k, b) in reqs {
-                    self.log(format!("socket <- {} {:?}", k, b));
-                    self.sock.requests.push((step, k.clone(), b.clone()));
-                    if self.sock.unlinked_sent.is_some() {
-                        continue;
-                    }
-                    match k.as_str() {
-                        "link" => {
-                            self.sock.linked = true;
-                            self.sock.out_queue.push_back(Out::Linked);
-                        }
-                        "sync" => {
-                            if !self.sock.linked {
-                                self.sock.linked = true;
-                                self.sock.out_queue.push_back(Out::Linked);
-                            }
-                            self.sock.out_queue.push_back(Out::SyncReply);
-                        }
-                        "command" => {
-                            if let Some(op) = parse_lop(kind, &b) {
-                                self.sock_change(&op);
-                            }
-                        }
-                        _ => {}
-                    }
-                }
-            }
-            EV_SOCK_SEND => {
-                // expand a sync reply that has reached the head of the queue (state as of now)
-                if self.sock.out_queue.front() == Some(&Out::SyncReply) {
-                    self.sock.out_queue.pop_front();
-                    let mut items = vec![];
-                    match self.cfg.kind {
-                        Kind::Value => items.push(Out::SyncEvent(LOp::Set(self.sock.state.get(&0).cloned()))),
-                        Kind::Map => {
-                            for (k, v) in self.sock.state.clone() {
-                                items.push(Out::SyncEvent(LOp::Upd(k, v)));
-                            }
-                        }
-                    }
-                    items.push(Out::Synced);
-                    for it in items.into_iter().rev() {
-                        self.sock.out_queue.push_front(it);
-                    }
-                }
-                if let Some(o) = self.sock.out_queue.pop_front() {
-                    let path = RelativeAddress::new("/remote", "lane");
-                    let body_text;
-                    let msg: ResponseMessage<&str, &[u8], &[u8]> = match &o {
-                        Out::Linked => ResponseMessage::linked(Uuid::from_u128(77), path),
-                        Out::Synced => ResponseMessage::synced(Uuid::from_u128(77), path),
-                        Out::Unlinked => ResponseMessage::unlinked(Uuid::from_u128(77), path, None),
-                        Out::Change(op) | Out::SyncEvent(op) => {
-                            body_text = lop_text(op);
-                            ResponseMessage::event(Uuid::from_u128(77), path, body_text.as_bytes())
-                        }
-                        Out::SyncReply => unreachable!(),
-                    };
-                    let mut buf = BytesMut::new();
-                    RawResponseMessageEncoder.encode(msg, &mut buf).expect("encode");
-                    if let Some(tx) = self.sock.tx.as_mut() {
-                        match write_some(tx, &buf) {
-                            Ok(k) if k == buf.len() => {}
-                            _ => {
-                                self.sock.tx = None;
-                            }
-                        }
-                    }
-                    match &o {
-                        Out::Change(op) => {
-                            apply(&mut self.sock.state, op);
-                            let st = self.sock.state.clone();
-                            self.sock.history.push((step, st));
-                            self.sock.events_sent.push((step, op.clone()));
-                        }
-                        Out::SyncEvent(op) => self.sock.events_sent.push((step, op.clone())),
-                        Out::Unlinked => self.sock.unlinked_sent = Some(step),
-                        _ => {}
-                    }
-                    self.log(format!("socket -> {:?}", o));
-                }
-            }
-            c if (EV_CONS_RECV..EV_SCRIPT).contains(&c) => {
-                let i = (c - EV_CONS_RECV) as usize;
-                let kind = self.cfg.kind;
-                let mut msgs = vec![];
-                let con = &mut self.cons[i];
-                if let Some(rx) = con.rx.as_mut() {
-                    let before = con.inbuf.len();
-                    let res = read_now(rx, &con.rx_flag, 0, &mut con.inbuf);
-                    if self.trace_on {
-                        msgs.push(format!("consumer {} raw +{:?}", i + 1, &con.inbuf[before.min(con.inbuf.len())..]));
-                    }
-                    match res {
-                        Ok(Some(0)) | Err(_) => {
-                            con.rx = None;
-                            con.closed_at = Some(step);
-                        }
-                        _ => {}
-                    }
-                    loop {
-                        // The harness frames notifications itself (tag, and for events the 8 byte
-                        // length) and hands only complete frames to the repository's decoder: the
-                        // incremental behaviour of that decoder is C10's subject, not C07's.
-                        let complete = match con.inbuf.first() {
-                            None => None,
-                            Some(3) => {
-                                if con.inbuf.len() >= 9 {
-                                    let len = u64::from_be_bytes(con.inbuf[1..9].try_into().unwrap()) as usize;
-                                    if con.inbuf.len() >= 9 + len { Some(9 + len) } else { None }
-                                } else {
-                                    None
-                                }
-                            }
-                            Some(_) => Some(1),
-                        };
-                        let Some(flen) = complete else { break };
-                        let mut frame = con.inbuf.split_to(flen);
-                        let item: Result<Option<Note>, String> = match kind {
-                            Kind::Value => {
-                                con.vdec = Default::default();
-                                con.vdec.decode(&mut frame).map_err(|e| e.to_string()).map(|o| {
-                                    o.map(|n| match n {
-                                        DownlinkNotification::Linked => Note::Linked,
-                                        DownlinkNotification::Synced => Note::Synced,
-                                        DownlinkNotification::Unlinked => Note::Unlinked,
-                                        DownlinkNotification::Event { body } => Note::Event(LOp::Set(body)),
-                                    })
-                                })
-                            }
-                            Kind::Map => {
-                                con.mdec = Default::default();
-                                con.mdec.decode(&mut frame).map_err(|e| e.to_string()).map(|o| {
-                                    o.and_then(|n| match n {
-                                        DownlinkNotification::Linked => Some(Note::Linked),
-                                        DownlinkNotification::Synced => Some(Note::Synced),
-                                        DownlinkNotification::Unlinked => Some(Note::Unlinked),
-                                        DownlinkNotification::Event { body } => match body {
-                                            MapMessage::Update { key, value } => Some(Note::Event(LOp::Upd(key, value))),
-                                            MapMessage::Remove { key } => Some(Note::Event(LOp::Rem(key))),
-                                            MapMessage::Clear => Some(Note::Event(LOp::Clr)),
-                                            _ => None,
-                                        },
-                                    })
-                                })
-                            }
-                        };
-                        match item {
-                            Ok(Some(n)) => {
-                                msgs.push(format!("consumer {} <- {:?}", i + 1, n));
-                                con.notes.push((step, n));
-                            }
-                            Ok(None) => break,
-                            Err(e) => {
-                                con.decode_error = Some(e);
-                                break;
-                            }
-                        }
-                    }
-                }
-                for m in msgs {
-                    self.log(m);
-                }
-            }
-            c => {
-                let a = (c - EV_SCRIPT) as usize;
-                if a == 0 {
-                    let st = self.sock.queue[self.sock.pos].clone();
-                    self.sock.pos += 1;
-                    match st {
-                        Step::Lane(op) => {
-                            self.sock_change(&op);
-                            self.log(format!("lane changes: {:?}", op));
-                        }
-                        Step::Unlinked => {
-                            if self.sock.linked {
-                                self.sock.out_queue.push_back(Out::Unlinked);
-                            }
-                        }
-                        _ => {}
-                    }
-                } else {
-                    let kind = self.cfg.kind;
-                    let dl_buf = self.cfg.dl_buf;
-                    let con = &mut self.cons[a - 1];
-                    let st = con.queue[con.pos].clone();
-                    con.pos += 1;
-                    match st {
-                        Step::Attach(sync, keep) => {
-                            let (tx_in, rx_in) = byte_channel(NonZeroUsize::new(dl_buf).unwrap());
-                            let (tx_out, rx_out) = byte_channel(NonZeroUsize::new(1 << 14).unwrap());
-                            let mut opts = DownlinkOptions::empty();
-                            if sync {
-                                opts |= DownlinkOptions::SYNC;
-                            }
-                            if keep {
-                                opts |= DownlinkOptions::KEEP_LINKED;
-                            }
-                            if let Some(att) = &self.att_tx {
-                                let _ = att.try_send(AttachAction::new((tx_in, rx_out), opts));
-                            }
-                            con.tx = Some(tx_out);
-                            con.rx = Some(rx_in);
-                            con.attach = Some((step, sync, keep));
-                        }
-                        Step::Cmd(op) => {
-                            let mut buf = BytesMut::new();
-                            match (kind, &op) {
-                                (Kind::Value, LOp::Set(v)) => {
-                                    DownlinkOperationEncoder::default().encode(DownlinkOperation::new(*v), &mut buf).expect("encode");
-                                }
-                                (Kind::Map, LOp::Upd(k, v)) => {
-                                    MapOperationEncoder.encode(MapOperation::Update { key: *k, value: *v }, &mut buf).expect("encode");
-                                }
-                                (Kind::Map, LOp::Rem(k)) => {
-                                    MapOperationEncoder.encode(MapOperation::<i32, i32>::Remove { key: *k }, &mut buf).expect("encode");
-                                }
-                                (Kind::Map, LOp::Clr) => {
-                                    MapOperationEncoder.encode(MapOperation::<i32, i32>::Clear, &mut buf).expect("encode");
-                                }
-                                _ => {}
-                            }
-                            if let Some(tx) = con.tx.as_mut() {
-                                match write_some(tx, &buf) {
-                                    Ok(k) if k == buf.len() => {}
-                                    other => {
-                                        con.decode_error = Some(format!("harness could not write a command: {:?}", other));
-                                    }
-                                }
-                            }
-                            con.sent.push((step, op.clone()));
-                        }
-                        Step::Drop => {
-                            con.tx = None;
-                            con.rx = None;
-                            con.dropped_at = Some(step);
-                        }
-                        _ => {}
-                    }
-                    self.log(format!("consumer {}: {:?}", a, self.cons[a - 1].queue[self.cons[a - 1].pos - 1]));
-                }
-            }
-        }
-    }
-
-    fn finish(self) -> Outcome {
-        let violations = oracle(&self);
-        let mut h: u64 = 0xcbf29ce484222325;
-        let mut feed = |s: &str| {
-            for b in s.as_bytes() {
-                h ^= *b as u64;
-                h = h.wrapping_mul(0x100000001b3);
-            }
-        };
-        for c in &self.cons {
-            for (_, n) in &c.notes {
-                feed(&format!("{:?};", n));
-            }
-            feed("|");
-        }
-        for (_, k, b) in &self.sock.requests {
-            feed(&format!("{}:{};", k, b));
-        }
-        feed(&format!("{}", self.subject.alive()));
-        let mut log = self.trace.clone();
-        if self.trace_on {
-            log.push(format!("lane history: {:?}", self.sock.history));
-            log.push(format!("runtime alive at end: {}", self.subject.alive()));
-        }
-        Outcome { digest: h, violations, log }
-    }
-}
-
-// ------------------------------------------------------------------------------------------
-// oracle
-// ------------------------------------------------------------------------------------------
-
-fn key_of(op: &LOp) -> Option<i32> {
-    match op {
-        LOp::Upd(k, _) | LOp::Rem(k) => Some(*k),
-        _ => None,
-    }
-}
-
-fn fold_notes<'a>(it: impl Iterator<Item = &'a Note>) -> LaneState {
-    let mut s = LaneState::new();
-    for n in it {
-        if let Note::Event(op) = n {
-            apply(&mut s, op);
-        }
-    }
-    s
-}
-
-/// All final lane states reachable by interleaving the consumers' command streams (per consumer
-/// order preserved) on top of `base`.
-fn possible_finals(base: &LaneState, streams: &[Vec<LOp>]) -> BTreeSet<LaneState> {
-    fn rec(streams: &[Vec<LOp>], pos: &mut Vec<usize>, cur: LaneState, out: &mut BTreeSet<LaneState>) {
-        let mut done = true;
-        for i in 0..streams.len() {
-            if pos[i] < streams[i].len() {
-                done = false;
-                let mut next = cur.clone();
-                apply(&mut next, &streams[i][pos[i]]);
-                pos[i] += 1;
-                rec(streams, pos, next, out);
-                pos[i] -= 1;
-            }
-        }
-        if done {
-            out.insert(cur);
-        }
-    }
-    let mut out = BTreeSet::new();
-    rec(streams, &mut vec![0; streams.len()], base.clone(), &mut out);
-    out
-}
-
-fn oracle(w: &DlWorld) -> Vec<(String, String)> {
-    let mut out: Vec<(String, String)> = vec![];
-    let mut add = |sig: String, expl: String| {
-        if !out.iter().any(|(s, _)| *s == sig) {
-            out.push((sig, expl));
-        }
-    };
-    let kind = w.cfg.kind;
-    let k = if kind == Kind::Value { "value" } else { "map" };
-    let quiescent = w.quiescent_seen;
-    let events: Vec<&LOp> = w.sock.events_sent.iter().map(|(_, e)| e).collect();
-    for (ci, c) in w.cons.iter().enumerate() {
-        let ci = ci + 1;
-        if let Some(e) = &c.decode_error {
-            add(format!("dl({}): consumer received an undecodable notification", k), format!("consumer {}: {}", ci, e));
-            continue;
-        }
-        let Some((att_step, want_sync, _keep)) = c.attach else { continue };
-        // --- shape: linked first, nothing after unlinked
-        let mut seen_linked = false;
-        let mut seen_unlinked = false;
-        let mut synced_at: Option<(usize, u64)> = None;
-        for (i, (s, n)) in c.notes.iter().enumerate() {
-            if seen_unlinked {
-                add(format!("dl({}): notification after unlinked", k), format!("consumer {}: {:?} at step {}", ci, n, s));
-            }
-            match n {
-                Note::Linked => {
-                    if seen_linked {
-                        add(format!("dl({}): linked delivered twice", k), format!("consumer {}", ci));
-                    }
-                    seen_linked = true;
-                }
-                Note::Synced => {
-                    if !seen_linked {
-                        add(format!("dl({}): synced before linked", k), format!("consumer {}", ci));
-                    }
-                    if synced_at.is_some() {
-                        add(format!("dl({}): synced delivered twice", k), format!("consumer {}", ci));
-                    }
-                    synced_at = Some((i, *s));
-                }
-                Note::Event(_) => {
-                    if !seen_linked {
-                        add(format!("dl({}): event before linked", k), format!("consumer {}", ci));
-                    }
-                }
-                Note::Unlinked => seen_unlinked = true,
-            }
-        }
-        // --- state at synced is a state of the remote lane between attach and synced
-        if let Some((idx, s_step)) = synced_at {
-            let have = fold_notes(c.notes[..idx].iter().map(|(_, n)| n));
-            let any_event_from_lane = !w.sock.events_sent.is_empty();
-            let mut window: Vec<&LaneState> = vec![];
-            let mut before: Option<&LaneState> = None;
-            for (hs, st) in &w.sock.history {
-                if *hs <= att_step {
-                    before = Some(st);
-                } else if *hs <= s_step {
-                    window.push(st);
-                }
-            }
-            if let Some(b) = before {
-                window.insert(0, b);
-            }
-            if any_event_from_lane && !window.iter().any(|st| **st == have) {
-                add(
-                    format!("dl({}): state at synced is not a state the remote lane was in between attach and synced ({})", k, if want_sync { "consumer asked for sync" } else { "consumer did not ask for sync" }),
-                    format!("consumer {} (attached at {}, synced at {}): holds {:?}; lane states in that window {:?}", ci, att_step, s_step, have, window),
-                );
-            }
-        }
-        // --- the events a consumer receives are a contiguous run of what the lane sent
-        let got: Vec<&LOp> = c.notes.iter().filter_map(|(_, n)| if let Note::Event(op) = n { Some(op) } else { None }).collect();
-        if !got.is_empty() {
-            // find a start index a such that events[a..a+got.len()] == got; for value downlinks the
-            // first delivered value may be the retained current value (the last event before the
-            // consumer's sync completed), which is still an element of `events`
-            let found = (0..=events.len().saturating_sub(got.len())).any(|a| events.len() >= got.len() && events[a..a + got.len()] == got[..]);
-            if !found {
-                add(
-                    format!("dl({}): events delivered to a consumer are not a contiguous in-order run of the lane's events", k),
-                    format!("consumer {}: received {:?}; lane sent {:?}", ci, got, events),
-                );
-            }
-        }
-        // --- at quiescence nothing is missing at the end
-        let q0 = c.notes_at_quiescence.unwrap_or(c.notes.len());
-        let unlinked_by_quiescence = c.notes.iter().take(q0).any(|(_, n)| *n == Note::Unlinked);
-        let synced_by_quiescence = c.notes.iter().take(q0).any(|(_, n)| *n == Note::Synced);
-        if quiescent && c.dropped_at.is_none() && seen_linked && !unlinked_by_quiescence && w.sock.unlinked_sent.is_none() {
-            let q = c.notes_at_quiescence.unwrap_or(c.notes.len());
-            let got_q: Vec<&LOp> = c.notes.iter().take(q).filter_map(|(_, n)| if let Note::Event(op) = n { Some(op) } else { None }).collect();
-            let linked_step = c.notes.iter().find(|(_, n)| *n == Note::Linked).map(|(s, _)| *s).unwrap_or(0);
-            // events the lane sent after this consumer had read `linked`
-            let later: Vec<&LOp> = w.sock.events_sent.iter().filter(|(s, _)| *s > linked_step).map(|(_, e)| e).collect();
-            if let Some(last) = later.last() {
-                if got_q.last() != Some(last) {
-                    add(
-                        format!("dl({}): consumer missed the lane's latest event at quiescence ({})", k, if want_sync { "asked for sync" } else { "did not ask for sync" }),
-                        format!("consumer {} (linked read at {}): received {:?}; lane sent {:?}", ci, linked_step, got_q, events),
-                    );
-                }
-            }
-            if want_sync && !synced_by_quiescence && w.sock.requests.iter().any(|(_, kk, _)| kk == "sync") && w.sock.out_queue.is_empty() {
-                add(format!("dl({}): consumer that asked for sync never received synced", k), format!("consumer {}", ci));
-            }
-        }
-        if let Some(us) = w.sock.unlinked_sent {
-            if c.dropped_at.is_none() && quiescent && att_step < us && !seen_unlinked && !w.subject.alive() {
-                add(format!("dl({}): consumer not told unlinked when the link closed", k), format!("consumer {}", ci));
-            }
-        }
-    }
-    // --- commands as the socket received them
-    let received: Vec<LOp> = w.sock.requests.iter().filter(|(_, kk, _)| kk == "command").filter_map(|(_, _, b)| parse_lop(kind, b)).collect();
-    let n_cmd_frames = w.sock.requests.iter().filter(|(_, kk, _)| kk == "command").count();
-    if received.len() != n_cmd_frames {
-        add(format!("dl({}): command frame with a body no consumer wrote", k), format!("requests {:?}", w.sock.requests));
-    }
-    let streams: Vec<Vec<LOp>> = w.cons.iter().map(|c| c.sent.iter().map(|(_, op)| op.clone()).collect()).collect();
-    // per consumer: no duplicates; order preserved where it matters (value: always; map: per key
-    // and across a clear). Commands are distinct within a run.
-    for (ci, s) in streams.iter().enumerate() {
-        let mine: Vec<&LOp> = received.iter().filter(|op| s.contains(op)).collect();
-        let pos = |op: &LOp| s.iter().position(|x| x == op).unwrap();
-        let mut ok = true;
-        let mut dup = false;
-        for i in 0..mine.len() {
-            for j in (i + 1)..mine.len() {
-                if mine[i] == mine[j] {
-                    dup = true;
-                }
-                let ordered_matters = match (kind, mine[i], mine[j]) {
-                    (Kind::Value, _, _) => true,
-                    (_, LOp::Clr, _) | (_, _, LOp::Clr) => true,
-                    (_, a, b) => key_of(a) == key_of(b),
-                };
-                if ordered_matters && pos(mine[i]) > pos(mine[j]) {
-                    ok = false;
-                }
-            }
-        }
-        if dup {
-            add(format!("dl({}): a consumer's command reached the lane twice", k), format!("consumer {} wrote {:?}; lane received {:?}", ci + 1, s, received));
-        }
-        if !ok {
-            add(
-                format!("dl({}): one consumer's commands reached the lane out of order", k),
-                format!("consumer {} wrote {:?}; lane received {:?}", ci + 1, s, received),
-            );
-        }
-    }
-    if quiescent && w.cons.iter().all(|c| c.dropped_at.is_none()) && w.sock.unlinked_sent.is_none() && streams.iter().any(|s| !s.is_empty()) {
-        // the lane ends in the same state as if every command had been sent in some interleaving
-        let external: bool = w.sock.queue.iter().any(|s| matches!(s, Step::Lane(_)));
-        if !external {
-            let finals = possible_finals(&LaneState::new(), &streams);
-            let got = {
-                let mut s = LaneState::new();
-                for op in &received {
-                    apply(&mut s, op);
-                }
-                s
-            };
-            if !finals.contains(&got) {
-                let last_is_empty = matches!(streams.iter().flat_map(|s| s.last()).next(), Some(LOp::Set(None)));
-                add(
-                    format!("dl({}): the lane does not end in a state reachable by sending every command{}", k, if last_is_empty { " (an empty-bodied command was lost)" } else { "" }),
-                    format!("commands {:?}; lane received {:?} -> {:?}; reachable finals {:?}", streams, received, got, finals),
-                );
-            }
-        }
-    }
-    out
-}
-
-// ------------------------------------------------------------------------------------------
-// scripts / driver
-// ------------------------------------------------------------------------------------------
-
-fn interleavings(scripts: &[Vec<Step>]) -> Vec<Vec<(usize, Step)>> {
-    fn rec(scripts: &[Vec<Step>], pos: &mut Vec<usize>, cur: &mut Vec<(usize, Step)>, out: &mut Vec<Vec<(usize, Step)>>) {
-        let mut done = true;
-        for i in 0..scripts.len() {
-            if pos[i] < scripts[i].len() {
-                done = false;
-                cur.push((i, scripts[i][pos[i]].clone()));
-                pos[i] += 1;
-                rec(scripts, pos, cur, out);
-                pos[i] -= 1;
-                cur.pop();
-            }
-        }
-        if done {
-            out.push(cur.clone());
-        }
-    }
-    let mut out = vec![];
-    rec(scripts, &mut vec![0; scripts.len()], &mut vec![], &mut out);
-    out
-}
-
-fn scripts(kind: Kind, quick: bool) -> Vec<(Vec<(usize, Step)>, usize)> {
-    let mut out = vec![];
-    let (l1, l2, l3): (LOp, LOp, LOp) = match kind {
-        Kind::Value => (LOp::Set(Some(101)), LOp::Set(Some(102)), LOp::Set(Some(103))),
-        Kind::Map => (LOp::Upd(1, 101), LOp::Upd(2, 102), LOp::Rem(1)),
-    };
-    let (c1, c2, c3, c4): (LOp, LOp, LOp, LOp) = match kind {
-        Kind::Value => (LOp::Set(Some(1)), LOp::Set(Some(2)), LOp::Set(None), LOp::Set(Some(4))),
-        Kind::Map => (LOp::Upd(1, 1), LOp::Upd(2, 2), LOp::Rem(1), LOp::Clr),
-    };
-    let d1: LOp = match kind {
-        Kind::Value => LOp::Set(Some(11)),
-        Kind::Map => LOp::Upd(1, 11),
-    };
-    let d2: LOp = match kind {
-        Kind::Value => LOp::Set(Some(12)),
-        Kind::Map => LOp::Upd(3, 12),
-    };
-    let lane = vec![Step::Lane(l1.clone()), Step::Lane(l2.clone()), Step::Lane(l3.clone())];
-    // one consumer: attach, commands
-    for (sync, keep) in [(true, true), (true, false), (false, true)] {
-        out.push((interleavings(&[vec![], vec![Step::Attach(sync, keep), Step::Cmd(c1.clone()), Step::Cmd(c2.clone()), Step::Cmd(c3.clone())]]).remove(0), 1));
-    }
-    out.push((interleavings(&[vec![], vec![Step::Attach(true, true), Step::Cmd(c1.clone()), Step::Cmd(c4.clone()), Step::Cmd(c3.clone())]]).remove(0), 1));
-    // one consumer attaching at every position of a lane event stream
-    for (sync, keep) in [(true, true), (false, true)] {
-        for s in interleavings(&[lane.clone(), vec![Step::Attach(sync, keep)]]) {
-            out.push((s, 1));
-        }
-    }
-    // early consumer + late joiner at every position of the stream
-    let every = if quick { 3 } else { 1 };
-    for (sync2, keep2) in [(true, true), (false, false)] {
-        for (i, s) in interleavings(&[lane.clone(), vec![Step::Attach(true, true)], vec![Step::Attach(sync2, keep2)]]).into_iter().enumerate() {
-            if i % every == 0 {
-                out.push((s, 2));
-            }
-        }
-    }
-    // two writers
-    for (i, s) in interleavings(&[vec![], vec![Step::Attach(true, true), Step::Cmd(c1.clone()), Step::Cmd(c2.clone())], vec![Step::Attach(false, true), Step::Cmd(d1.clone()), Step::Cmd(d2.clone())]]).into_iter().enumerate() {
-        if i % (every * 2) == 0 {
-            out.push((s, 2));
-        }
-    }
-    // a consumer that drops, the link closing
-    out.push((vec![(1, Step::Attach(true, true)), (0, Step::Lane(l1.clone())), (2, Step::Attach(true, true)), (1, Step::Drop), (0, Step::Lane(l2.clone())), (0, Step::Unlinked)], 2));
-    out.push((vec![(1, Step::Attach(true, false)), (0, Step::Lane(l1.clone())), (0, Step::Unlinked), (0, Step::Lane(l2.clone()))], 1));
-    out
-}
-
-/// Every single-consumer command stream of length `n` over update(1), update(2), update(3), remove(1),
-/// remove(2) and clear (each remove and the clear at most once, values distinct per position): the
-/// map write task's relief queue (`MapOperationQueue`) is driven through every short history.
-fn map_cmd_streams(n: usize) -> Vec<Vec<(usize, Step)>> {
-    fn rec(n: usize, cur: &mut Vec<LOp>, out: &mut Vec<Vec<LOp>>) {
-        if cur.len() == n {
-            out.push(cur.clone());
-            return;
-        }
-        let p = cur.len() as i32 + 1;
-        let mut alpha = vec![LOp::Upd(1, 10 * p + 1), LOp::Upd(2, 10 * p + 2), LOp::Upd(3, 10 * p + 3)];
-        for once in [LOp::Rem(1), LOp::Rem(2), LOp::Clr] {
-            if !cur.contains(&once) {
-                alpha.push(once);
-            }
-        }
-        for a in alpha {
-            cur.push(a);
-            rec(n, cur, out);
-            cur.pop();
-        }
-    }
-    let mut streams = vec![];
-    rec(n, &mut vec![], &mut streams);
-    streams
-        .into_iter()
-        .filter(|s| s.contains(&LOp::Clr) || s.iter().any(|o| matches!(o, LOp::Rem(_))))
-        .map(|s| std::iter::once((1usize, Step::Attach(false, true))).chain(s.into_iter().map(|o| (1usize, Step::Cmd(o)))).collect())
-        .collect()
-}
-
-struct GridResult {
-    total: ExploreStats,
-    skipped: usize,
-    n: usize,
-    samples: Vec<serde_json::Value>,
-}
-
-fn run_cfgs(ctx: &Ctx, name: &str, cfgs: Vec<Cfg>, bound: u32, max_exec: u64, wall_cap_s: f64) {
-    let t0 = Instant::now();
-    let results: Vec<Option<ExploreStats>> = match vcommon::sched::grid_explore::<DlWorld>(name, &cfgs, bound, max_exec, wall_cap_s) {
-        vcommon::sched::GridOutcome::NotMine => return,
-        vcommon::sched::GridOutcome::Done(r) => r,
-    };
-    let mut g = GridResult { total: ExploreStats::default(), skipped: 0, n: cfgs.len(), samples: vec![] };
-    for (cfg, r) in cfgs.iter().zip(results) {
-        match r {
-            None => g.skipped += 1,
-            Some(st) => {
-                if !st.machinery_errors.is_empty() {
-                    eprintln!("machinery errors: {:?}", &st.machinery_errors[..st.machinery_errors.len().min(3)]);
-                    vcommon::machinery_failure("schedule explorer: nondeterminism or crash");
-                }
-                for (sig, expl, choices) in &st.violations {
-                    ctx.violation(name, sig, json!({"cfg": serde_json::to_value(cfg).unwrap(), "choices": choices, "explanation": expl, "what": expl}));
-                }
-                if g.samples.len() < 3 && st.executions > 1 {
-                    g.samples.push(json!({"kind": format!("{:?}", cfg.kind), "script": format!("{:?}", cfg.script), "remote_buf": cfg.remote_buf, "executions": st.executions, "distinct_outcomes": st.distinct_digests}));
-                }
-                g.total.executions += st.executions;
-                g.total.steps += st.steps;
-                g.total.distinct_digests += st.distinct_digests;
-                g.total.nontrivial += st.nontrivial;
-                g.total.capped |= st.capped;
-                g.total.max_len = g.total.max_len.max(st.max_len);
-            }
-        }
-    }
-    ctx.add_leg(Leg {
-        name: name.into(),
-        engine: "E1-sched".into(),
-        states: g.total.distinct_digests,
-        transitions: g.total.steps,
-        evaluations: g.total.executions,
-        distinct_nontrivial: g.total.nontrivial,
-        rule: "all schedules with at most `bound` deviations from the canonical schedule of every configuration; non-trivial = executions with >= 1 deviation whose observations differ from the canonical execution".into(),
-        samples: g.samples,
-        exhaustive: g.skipped == 0 && !g.total.capped,
-        bounds: json!({"configurations": g.n, "skipped_by_wall_cap": g.skipped, "deviation_bound": bound, "max_exec_per_cfg": max_exec, "longest_execution_steps": g.total.max_len}),
-        wall_s: t0.elapsed().as_secs_f64(),
-    });
-}
-
 fn main() {
-    let ctx = Ctx::from_env("C07");
-    if let Some(r) = ctx.replay_request() {
-        if r["leg"].as_str().unwrap_or("").starts_with("mapq-") {
-            asys::mapq::replay(&ctx, &r);
-            ctx.finish("model_checking", "replay");
-        }
-        let d = &r["detail"];
-        let cfg: Cfg = serde_json::from_value(d["cfg"].clone()).unwrap_or_else(|e| vcommon::machinery_failure(&format!("bad cfg: {}", e)));
-        let choices: Vec<u8> = d["choices"].as_array().map(|a| a.iter().map(|x| x.as_u64().unwrap() as u8).collect()).unwrap_or_default();
-        let sig = r["signature"].as_str().unwrap_or("");
-        let mut hits = 0;
-        for round in 0..2 {
-            let rec = run_one::<DlWorld>(&cfg, &choices, true).unwrap_or_else(|e| vcommon::machinery_failure(&e));
-            if round == 0 {
-                println!("schedule: {}", rec.labels.join(" "));
-                for l in &rec.outcome.log {
-                    println!("{}", l);
-                }
-            }
-            if rec.outcome.violations.iter().any(|(s, _)| s == sig) {
-                hits += 1;
-            }
-        }
-        if hits == 1 {
-            vcommon::machinery_failure("nondeterminism in replay");
-        }
-        if hits == 2 {
-            println!("REPRODUCED: {}", sig);
-            ctx.violation(r["leg"].as_str().unwrap_or("replay"), sig, d.clone());
-        }
-        ctx.finish("model_checking", "replay");
-    }
-    let quick = ctx.quick();
-    for kind in [Kind::Value, Kind::Map] {
-        let sc = scripts(kind, quick);
-        let mut cfgs = vec![];
-        for (script, consumers) in &sc {
-            for (remote_buf, dl_buf) in [(16usize, 16usize), (4096, 4096), (16, 4096)] {
-                for budget in [2usize, 64] {
-                    for mode in [Mode::Eager, Mode::Burst, Mode::SlowRead, Mode::SlowAfterLink] {
-                        if quick && remote_buf == 16 && dl_buf == 4096 && mode != Mode::Eager {
-                            continue;
-                        }
-                        if mode == Mode::SlowAfterLink && remote_buf != 16 {
-                            continue;
-                        }
-                        cfgs.push(Cfg { kind, script: script.clone(), consumers: *consumers, remote_buf, dl_buf, sock_credit: if remote_buf == 16 { 5 } else { 0 }, budget, mode });
-                    }
-                }
-            }
-        }
-        let name = format!("dl-{}-grid-d1", if kind == Kind::Value { "value" } else { "map" });
-        run_cfgs(&ctx, &name, cfgs, 1, 20_000, if quick { 14.0 } else { 900.0 });
-        if kind == Kind::Map {
-            let mut cfgs = vec![];
-            for n in if quick { vec![4usize] } else { vec![4usize, 5] } {
-                for script in map_cmd_streams(n) {
-                    for mode in [Mode::SlowAfterLink, Mode::Eager, Mode::SlowRead] {
-                        if quick && mode == Mode::SlowRead {
-                            continue;
-                        }
-                        cfgs.push(Cfg { kind, script: script.clone(), consumers: 1, remote_buf: 16, dl_buf: 4096, sock_credit: 5, budget: 64, mode });
-                    }
-                }
-            }
-            run_cfgs(&ctx, "dl-map-cmdstreams-d1", cfgs, 1, 20_000, if quick { 12.0 } else { 900.0 });
-        }
-        let core: Vec<Cfg> = sc
-            .iter()
-            .filter(|(s, _)| s.len() <= 5)
-            .flat_map(|(script, consumers)| {
-                [2usize, 64].into_iter().map(move |budget| Cfg { kind, script: script.clone(), consumers: *consumers, remote_buf: 16, dl_buf: 16, sock_credit: 5, budget, mode: Mode::Eager })
-            })
-            .collect();
-        let name = format!("dl-{}-core-d2", if kind == Kind::Value { "value" } else { "map" });
-        run_cfgs(&ctx, &name, core, if quick { 2 } else { 3 }, if quick { 20_000 } else { 2_000_000 }, if quick { 10.0 } else { 900.0 });
-    }
-    asys::mapq::run_runtime(&ctx);
-    ctx.assume("the socket is a reactive model of a well-behaved lane: it answers each @link/@sync it reads and applies each @command, at a schedule-chosen pace");
-    ctx.assume("tokio select! start index is fixed per run (seeded), not enumerated; schedule switches only where the runtime future returns Pending (plus coop-budget yields)");
-    ctx.assume("commands written by the consumers are pairwise distinct so that a received frame identifies its writer");
-    ctx.finish(
-        "model_checking",
-        "deviation-bounded exhaustive schedule exploration of the real downlink runtime future with a reactive lane model and 1-2 consumers attaching at every position",
-    );
+    c07::run_main();
 }
